@@ -170,7 +170,7 @@ def check_cli(chk, MX, tmp):
             ac = gen.simple_wing_aircraft(N=4, reid=False)       # has an elevator: the trim below changes what the exports show
             acs[0] = (name, ac, st, cs)
         d = os.path.join(tmp, "cli%d" % it)
-        rel = rng.choice(["in.json", "case.json.d/in.json", "a.b/run_1.json", "x.json"])
+        rel = ["case.json.d/in.json", "a.b/run_1.json", "in.json", "x.json"][it % 4]       # (enumerated: a path with ".json" inside a directory name first)
         os.makedirs(os.path.dirname(os.path.join(d, rel)) or d, exist_ok=True)
         os.makedirs(d, exist_ok=True)
         acfile = os.path.join(d, "aircraft.json")
